@@ -114,8 +114,8 @@ func init() {
 			return map[string]interface{}{"matrix_width": "{1,5,31,32,33,63,64,65,96,130}", "matrix_height": "{1,2,3,8}", "array_size": "{0,1,31,32,33,64,65,100}", "history": "one operation from an arbitrary valid state (inductive step); contents free"}
 		},
 		Exhaustive: func(tier string) bool { return tier == "thorough" },
-		Outside: []string{"widths > 130, heights > 8, array sizes > 200", "SetRow with a row whose size differs from the width; SetBulk with bits beyond size (excluded by the methods' contracts)"},
-		Stubs:   []string{"xerrors.New/Errorf -> opaque error value", "math/bits.Reverse32/TrailingZeros32 -> exact bit-vector definitions"},
+		Outside:    []string{"widths > 130, heights > 8, array sizes > 200", "SetRow with a row whose size differs from the width; SetBulk with bits beyond size (excluded by the methods' contracts)"},
+		Stubs:      []string{"xerrors.New/Errorf -> opaque error value", "math/bits.Reverse32/TrailingZeros32 -> exact bit-vector definitions"},
 		Assumptions: append([]string{
 			"representation invariant assumed for the pre-state: len(bits)==rowSize*height, rowSize==(width+31)/32, bits beyond width/size are zero; it is re-established (asserted) after every operation, so histories of any length follow by induction",
 		}, commonAssumptions...),
